@@ -222,6 +222,18 @@ func c17Write(path string) map[string]string {
 		}
 		call("08delattr", func() error { return d.DeleteAttribute("a1") })
 	}
+	// a dataset whose attributes cross from the object header into dense storage (fractal heap + name index), are
+	// overwritten there with another size, and deleted there
+	var e *hdf5.DatasetWriter
+	call("08bdense", func() error { var err error; e, err = fw.CreateDataset("/e", hdf5.Float32, []uint64{2}); return err })
+	if e != nil {
+		call("08cwrite", func() error { return e.Write([]float32{1.5, -2.5}) })
+		for i := 0; i < 11; i++ {
+			call(fmt.Sprintf("08dattr%02d", i), func() error { return e.WriteAttribute(fmt.Sprintf("n%02d", i), int32(100+i)) })
+		}
+		call("08eoverwrite", func() error { return e.WriteAttribute("n03", "now a string of another size") })
+		call("08fdelete", func() error { return e.DeleteAttribute("n07") })
+	}
 	call("09chunked", func() error {
 		var err error
 		c, err = fw.CreateDataset("/c", hdf5.Float64, []uint64{4, 3}, hdf5.WithChunkDims([]uint64{2, 2}))
